@@ -4,7 +4,7 @@
    and zero words in the word-level algorithms of the library. *)
 EXTENDS BigInt
 
-Patterns == <<"dense", "ones", "pow2", "pow2m1", "lowzero", "alt", "pow2p1", "dense2">>
+Patterns == <<"dense", "ones", "pow2", "pow2m1", "lowzero", "alt", "pow2p1", "dense2", "hilo">>
 NPat == Len(Patterns)
 Lcg8(i, salt) == ((((i + salt * 31) % 4093) * 1277 + 911 * (salt % 1000) + 13) % 4099) % 256
 
@@ -18,6 +18,9 @@ PatBytes(pat, nw, salt) ==
     [] pat = "pow2m1"  -> [i \in 1..n |-> IF i = n THEN Pow2Small(1 + (salt % 7)) - 1 ELSE 255]
     [] pat = "lowzero" -> [i \in 1..n |-> IF i > n - 3 THEN 1 + (Lcg8(i, salt) % 255) ELSE 0]
     [] pat = "alt"     -> [i \in 1..n |-> IF ((i - 1) \div 8) % 2 = 0 THEN 255 ELSE (IF i = n THEN 1 ELSE 0)]
+    \* top bit only, zero upper part, all-ones lower part: the worst case of quotient-digit estimation from the top words
+    [] pat = "hilo"    -> LET cut == 8 * ((nw \div 2) + (salt % 3)) IN
+                          [i \in 1..n |-> IF i = n THEN 128 ELSE IF i <= cut THEN 255 ELSE 0]
     [] pat = "pow2p1"  -> [i \in 1..n |-> IF i = n THEN 1 ELSE IF i = 1 THEN 1 + (salt % 2) ELSE 0]
 
 Mag(pat, nw, salt) == IF nw = 0 THEN <<>> ELSE PatBytes(pat, nw, salt)
